@@ -54,4 +54,8 @@ VARIANTS = [
     dict(name='benign-conect-format-concat', expect='silent', edits=[
         dict(file=PDB, old="                    fmt = ['CONECT'] + [number_fmt]*(len(current) + 1)\n                    fmt = ''.join(fmt)\n",
              new="                    fmt = 'CONECT' + number_fmt*(len(current) + 1)\n")]),
+    dict(name='write_pdb-flags-transposed (seed C16_f)', expect='fire', key='ARG-binding|write_pdb|write_pdb_string|conect', edits=[
+        dict(file=PDB, old="write_pdb_string(system, conect, omit_charges, nan_missing_pos)", new="write_pdb_string(system, omit_charges, conect, nan_missing_pos)")]),
+    dict(name='benign-write_pdb-keywords', expect='silent', edits=[
+        dict(file=PDB, old="write_pdb_string(system, conect, omit_charges, nan_missing_pos)", new="write_pdb_string(system, omit_charges=omit_charges, conect=conect, nan_missing_pos=nan_missing_pos)")]),
 ]
